@@ -1,7 +1,7 @@
 (* C27 — property theorems only.  `df` = default $flag (both panics enabled), `val (u,l) = u*2^64+l`,
    `wf` = both limbs below 2^64, `agrees o s` = the model outcome o is a well-formed value equal to the
    reference value s, or reverts (RVRT or VM panic) when the reference is None. *)
-From Coq Require Import NArith List.
+From Coq Require Import NArith List Bool.
 From SwayV Require Import Vm.Alu C27.Model C27.Spec C27.CollSpec C27.Proofs.
 Import ListNotations.
 Local Open Scope N_scope.
@@ -59,6 +59,84 @@ Proof.
   - apply u128_le_spec; assumption.
 Qed.
 Print Assumptions C27_u128_compare_correct.
+
+(* Newton square root of U128 (u128.sw) and u256 (math.sw): for every model fuel, the loop either runs out
+   of fuel (excluded) or returns the integer square root; it never reverts or overflows for n > 0.
+   U128::sqrt(0) reverts (explicit assert, pinned by the in-language tests). *)
+Theorem C27_u128_sqrt_correct : forall fuel a, wf a ->
+  if val a =? 0 then u128_sqrt_fuel fuel default_flags a = Rev FAILED_ASSERT_SIGNAL
+  else match u128_sqrt_fuel fuel default_flags a with
+       | Ret r => wf r /\ val r * val r <= val a < (val r + 1) * (val r + 1)
+       | Oof => True
+       | _ => False
+       end.
+Proof. exact u128_sqrt_fuel_correct. Qed.
+Print Assumptions C27_u128_sqrt_correct.
+
+Theorem C27_u256_sqrt_correct : forall fuel n, n < 2 ^ 256 ->
+  match u256_sqrt_fuel fuel default_flags n with
+  | Ret r => r * r <= n < (r + 1) * (r + 1)
+  | Oof => True
+  | _ => False
+  end.
+Proof. exact u256_sqrt_fuel_correct. Qed.
+Print Assumptions C27_u256_sqrt_correct.
+
+(* u8..u64 sqrt is the MROO instruction, modelled by its integer meaning (not a statement about fuel-vm's
+   float-based implementation, which is tied by the correspondence run only) *)
+Theorem C27_sqrt_correct : forall a, exists r,
+  sqrt_narrow default_flags a = Ret r /\ r * r <= a < (r + 1) * (r + 1).
+Proof. exact sqrt_narrow_correct. Qed.
+Print Assumptions C27_sqrt_correct.
+
+(* U128::pow: base^exponent when it fits, otherwise a revert (revert(0) or the VM overflow panic inside
+   u128_checked_mul); out-of-fuel excluded (the model runs it with fuel 40 >= 2 * 32 loop trips) *)
+Theorem C27_u128_pow_correct : forall fuel a e, wf a -> e < 2 ^ 32 ->
+  match u128_pow_fuel fuel default_flags a e with
+  | Ret r => val a ^ e < 2 ^ 128 /\ r = split (val a ^ e)
+  | Rev _ | Vmp _ => 2 ^ 128 <= val a ^ e
+  | Oof => True
+  end.
+Proof. exact u128_pow_fuel_correct. Qed.
+Print Assumptions C27_u128_pow_correct.
+
+Theorem C27_u128_log2_correct : forall a, wf a ->
+  if val a =? 0 then u128_log2 default_flags a = Rev FAILED_ASSERT_SIGNAL
+  else exists r, u128_log2 default_flags a = Ret r /\ wf r /\
+                 2 ^ val r <= val a < 2 ^ (val r + 1).
+Proof. exact u128_log2_correct. Qed.
+Print Assumptions C27_u128_log2_correct.
+
+(* u8..u64 log / log2 = MLOG (integer meaning): floor logarithm, VM panic for x = 0 or base < 2 *)
+Theorem C27_log_correct : forall x b, x < 2 ^ 64 ->
+  if (x =? 0) || (b <? 2) then reverts (log_narrow default_flags x b)
+  else exists r, log_narrow default_flags x b = Ret r /\ b ^ r <= x < b ^ (r + 1).
+Proof. exact log_narrow_correct. Qed.
+Print Assumptions C27_log_correct.
+
+(* U128::log / u256::log: the faithful model violates the statement (finding u128_log_overestimate /
+   u256_log_overestimate): full statement
+     forall a b, wf a -> wf b -> 2 <= val b -> 1 <= val a ->
+       exists r, u128_log default_flags a b = Ret r /\ val b ^ val r <= val a < val b ^ (val r + 1)
+   is refuted by the witness below (replayed on fuel-vm by the corpus of props/c27.py). *)
+Theorem C27_u128_log_refuted : exists a b, wf a /\ wf b /\ 2 <= val b /\ 1 <= val a /\
+  exists r, u128_log default_flags a b = Ret r /\ ~ (val b ^ val r <= val a).
+Proof.
+  exists (9223372036854775808, 0), (0, 3).
+  split; [split; vm_compute; reflexivity|]. split; [split; vm_compute; reflexivity|].
+  split; [vm_compute; congruence|]. split; [vm_compute; congruence|].
+  exists (0, 127). split; [vm_compute; reflexivity|]. vm_compute. congruence.
+Qed.
+Print Assumptions C27_u128_log_refuted.
+
+Theorem C27_u256_log_refuted : exists a b, a < 2 ^ 256 /\ 2 <= b /\ 1 <= a /\
+  exists r, u256_log default_flags a b = Ret r /\ ~ (b ^ r <= a).
+Proof.
+  exists (2 ^ 255), 3.
+  split; [vm_compute; reflexivity|]. split; [vm_compute; congruence|]. split; [vm_compute; congruence|].
+  exists 255. split; [vm_compute; reflexivity|]. vm_compute. congruence.
+Qed.
+Print Assumptions C27_u256_log_refuted.
 
 (* Collections: running any operation sequence (push/pop/get/set/insert/remove/swap/clear/len/capacity/
    is_empty/last) on the buffer model from the empty Vec gives exactly the observations, the revert
